@@ -353,6 +353,7 @@ class Stats:
         self.checks = 0          # obligations evaluated by engine.check (non-trivial ones)
         self.checks_trivial = 0
         self.model_hits = 0
+        self.sig_fallbacks = 0
 
     def add(self, o):
         for k, v in o.__dict__.items():
@@ -482,11 +483,25 @@ class Engine:
         raise Unsupported('solver answered unknown')
 
     # -- decisions ---------------------------------------------------------
+    def _same_term(self, recorded, now):
+        """determinism check of re-execution: the term decided now must be the recorded one.
+        z3's simplifier orders commutative arguments by AST id, so a syntactic mismatch is
+        re-checked semantically (one small query)."""
+        if recorded is None or recorded.eq(now):
+            return True
+        if recorded.sort() != now.sort():
+            return False
+        self.stats.sig_fallbacks += 1
+        s = z3.Solver()
+        s.set('timeout', 5000)
+        s.add(recorded != now)
+        return str(s.check()) == 'unsat'
+
     def _decide(self, kind, conds, sig):
         """conds: list of z3 bools (alternatives).  returns index chosen."""
         if self.pos < len(self.prefix):
             k, feas, chosen, s = self.prefix[self.pos]
-            if k != kind or s != sig:
+            if k != kind or not self._same_term(s, sig):
                 raise HarnessError(
                     f'non-deterministic re-execution at decision {self.pos}: '
                     f'{k}/{s} recorded, {kind}/{sig} now')
@@ -528,16 +543,16 @@ class Engine:
             return True
         if z3.is_false(e):
             return False
-        return self._decide('b', [e, z3.Not(e)], e.hash()) == 0
+        return self._decide('b', [e, z3.Not(e)], e) == 0
 
     def concretize(self, e, limit=64):
         e = z3.simplify(e)
         if z3.is_int_value(e):
             return e.as_long()
-        sig = e.hash()
+        sig = e
         if self.pos < len(self.prefix):
             k, vals, chosen, s = self.prefix[self.pos]
-            if k != 'c' or s != sig:
+            if k != 'c' or not self._same_term(s, sig):
                 raise HarnessError(f'non-deterministic re-execution at decision {self.pos} (concretize)')
             self.trace.append((k, vals, chosen, s))
             idx = self.pos
@@ -616,11 +631,11 @@ class Engine:
         if z3.is_true(c):
             self.stats.checks_trivial += 1
             return True
-        sig = c.hash()
+        sig = c
         idx = self.pos
         if idx < len(self.prefix):
             k, feas, code, sg = self.prefix[idx]
-            if k != 'k' or sg != sig:
+            if k != 'k' or not self._same_term(sg, sig):
                 raise HarnessError(f'non-deterministic re-execution at decision {idx} (check {rule})')
         else:
             if self.split_depth is not None and idx >= self.split_depth:
@@ -713,7 +728,7 @@ class Engine:
                 self.stats.dead += 1
             except SplitPoint:
                 status = 'split'
-                prefixes.append(list(self.trace))
+                prefixes.append([(k, f, c, None) for (k, f, c, _s) in self.trace])
             finally:
                 _set_engine(None)
             if status != 'split':
